@@ -75,6 +75,7 @@ type Day struct {
 	Tmin, Tavg, Tmax, Precip, Rad, Wind, RH float64
 	Sun                                      float64 // sunshine hours, used if Project.SunColumn
 	Verd                                     float64 // saturation deficit, used if Project.VerdColumn
+	ET0                                      float64 // reference ET (mm), one-file-per-year layout only
 }
 
 type Project struct {
@@ -97,6 +98,8 @@ type Project struct {
 	Weather      []Day  `json:"-"`
 	SunColumn    bool   `json:"sun_column,omitempty"`
 	VerdColumn   bool   `json:"verd_column,omitempty"`
+	Layout       int    `json:"layout,omitempty"` // 0 = multi-year CSV (default), 1 = one file per year, 2 = multi-year day-of-year (cz)
+	Filler       *Day   `json:"-"`                // record used to pad a year file back to 1 January (layout 1)
 	Automan      string `json:"automan,omitempty"` // full text of automan.txt ("" = shipped example)
 	DailyCols    string `json:"-"`                 // yaml text of dailyout_conf.yml ("" = minimal)
 	Files        map[string]string `json:"-"`      // extra/override files relative to the project dir
@@ -372,6 +375,12 @@ func (p *Project) Write(root string) {
 	if p.Cfg("StartYear") == "" {
 		p.Config["StartYear"] = fmt.Sprint(D(p.Rotation[0].Harvest).Year())
 	}
+	switch p.Layout {
+	case 1:
+		p.Config["WeatherFile"], p.Config["WeatherFileFormat"], p.Config["WeatherNumHeader"] = "%s.", "0", "2"
+	case 2:
+		p.Config["WeatherFile"], p.Config["WeatherFileFormat"], p.Config["WeatherNumHeader"] = "%s.csv", "2", "1"
+	}
 	w("config.yml", p.ConfigYML())
 	gh, gl := 99, 99
 	if p.GWHi != 0 || p.GWLo != 0 {
@@ -444,9 +453,103 @@ func (p *Project) Write(root string) {
 		must(os.MkdirAll(filepath.Dir(filepath.Join(pd, name)), 0o755))
 		must(os.WriteFile(filepath.Join(pd, name), []byte(content), 0o644))
 	}
-	if p.Weather != nil {
-		must(os.WriteFile(filepath.Join(root, "weather", "w", "W.csv"), []byte(p.WeatherCSV()), 0o644))
+	p.WriteWeather(root)
+}
+
+// WriteWeather (re)writes the weather input in the project's layout.
+func (p *Project) WriteWeather(root string) {
+	if p.Weather == nil {
+		return
 	}
+	dir := filepath.Join(root, "weather", "w")
+	switch p.Layout {
+	case 1:
+		for name, txt := range p.WeatherYearFiles() {
+			must(os.WriteFile(filepath.Join(dir, name), []byte(txt), 0o644))
+		}
+	case 2:
+		must(os.WriteFile(filepath.Join(dir, "W.csv"), []byte(p.WeatherCZ()), 0o644))
+	default:
+		must(os.WriteFile(filepath.Join(dir, "W.csv"), []byte(p.WeatherCSV()), 0o644))
+	}
+}
+
+// YearExt is the file extension of a one-file-per-year weather file.
+func YearExt(year int) string {
+	j := year - 1900
+	if j >= 100 {
+		return fmt.Sprintf("0%02d", j-100)
+	}
+	return fmt.Sprintf("9%02d", j)
+}
+
+// WeatherYearFiles renders layout 1: one file per calendar year, days 1..n, padded with Filler before the first record.
+func (p *Project) WeatherYearFiles() map[string]string {
+	out := map[string]string{}
+	t := D(p.WeatherStart)
+	bufs := map[int]*strings.Builder{}
+	row := func(y int, d Day, doy int) {
+		b, ok := bufs[y]
+		if !ok {
+			b = &strings.Builder{}
+			b.WriteString("tavg;tmin;tmax;ET0;relhumid;vapp14;wind;sundu;globrad;precip;jday\nC;C;C;mm;%;mmHg;m/s;h;MJ;mm;\n")
+			bufs[y] = b
+		}
+		sun, verd, et0 := -99.9, -99.9, -99.9
+		if p.SunColumn {
+			sun = d.Sun
+		}
+		if p.VerdColumn {
+			verd = d.Verd
+		}
+		if d.ET0 != 0 {
+			et0 = d.ET0
+		}
+		fmt.Fprintf(b, "%g;%g;%g;%g;%g;%g;%g;%g;%g;%g;%d\n", d.Tavg, d.Tmin, d.Tmax, et0, d.RH, verd, d.Wind, sun, d.Rad, d.Precip, doy)
+	}
+	if t.YearDay() > 1 {
+		f := Day{Tmin: 6, Tavg: 10, Tmax: 14, Precip: 1, Rad: 10, Wind: 2.5, RH: 75, Sun: 5, Verd: 2, ET0: 1}
+		if p.Filler != nil {
+			f = *p.Filler
+		}
+		for d := 1; d < t.YearDay(); d++ {
+			row(t.Year(), f, d)
+		}
+	}
+	for _, d := range p.Weather {
+		row(t.Year(), d, t.YearDay())
+		t = t.AddDate(0, 0, 1)
+	}
+	for y, b := range bufs {
+		out["W."+YearExt(y)] = b.String()
+	}
+	return out
+}
+
+// WeatherCZ renders layout 2 (multi-year, yyyyddd dates, tavg derived).
+func (p *Project) WeatherCZ() string {
+	var b strings.Builder
+	b.WriteString("@YYYYJJJ TMIN TMAX RAD PREC WIND RH")
+	if p.SunColumn {
+		b.WriteString(" SUNH")
+	}
+	if p.VerdColumn {
+		b.WriteString(" VERD")
+	}
+	b.WriteString("\n")
+	t := D(p.WeatherStart)
+	for _, d := range p.Weather {
+		fmt.Fprintf(&b, "%04d%03d %g %g %g %g %g %g", t.Year(), t.YearDay(), d.Tmin, d.Tmax, d.Rad, d.Precip, d.Wind, d.RH)
+		if p.SunColumn {
+			fmt.Fprintf(&b, " %g", d.Sun)
+		}
+		if p.VerdColumn {
+			fmt.Fprintf(&b, " %g", d.Verd)
+		}
+		b.WriteString("\n")
+		t = t.AddDate(0, 0, 1)
+	}
+	return b.String()
 }
 
 // Args returns the batch-line arguments of the project.
